@@ -33,7 +33,7 @@ let hex_of_pos (p : positive) : string =
     | XI q -> bits q (true :: acc) in
   (* bits returns MSB first after accumulation reversed: we accumulate LSB->MSB by consing, so acc is MSB first *)
   let rec collect p acc = match p with
-    | XH -> List.rev (true :: acc)
+    | XH -> true :: acc
     | XO q -> collect q (false :: acc)
     | XI q -> collect q (true :: acc) in
   ignore bits;
